@@ -1,0 +1,21 @@
+//go:build verif
+
+// Contracts for package util, checked by /verif/govc (comment-only file; see /verif/DESIGN.md).
+
+package util
+
+// The contract every encodable value obeys (behavioural subtyping: each implementer in the library inherits
+// these clauses as obligations on its own methods; containers reason about children only through them).
+// size() and wf() are per-kind spec functions (uninterpreted for a value of unknown dynamic type).
+//@ iface Message
+//@ method Len() (n) [C06 C13 C01 C02]
+//@   requires wf(self)
+//@   ensures n == uint16(size(self))
+//@   ensures size(self) == old(size(self)) && (old(wf(self)) ==> wf(self))
+//@ method MarshalBinary() (data, err) [C06 C13 C01 C02]
+//@   requires wf(self) && size(self) <= 65535
+//@   ensures err == nil && len(data) == old(size(self))
+//@   ensures size(self) == old(size(self)) && wf(self)
+
+//@ spec size(b *Buffer) = blen(b)
+//@ spec wf(b *Buffer) = true
